@@ -236,6 +236,15 @@ func (s *Stream) read() bool {
 	return true
 }
 
+// charAfterNumber returns the byte that follows the digits just scanned
+// (refilling the buffer if the digits ended exactly at its end) without consuming it.
+func (s *Stream) charAfterNumber() byte {
+	if s.char() == nul {
+		s.read()
+	}
+	return s.char()
+}
+
 func (s *Stream) skipWhiteSpace() byte {
 	p := s.bufptr()
 LOOP:
